@@ -2,19 +2,23 @@ package harness
 
 import (
 	"context"
+	"encoding/json"
 	"errors"
 	"fmt"
 	"net"
 	"net/netip"
 	"net/url"
+	"os"
 	"path/filepath"
 	"sort"
+	"strconv"
 	"sync"
 	"sync/atomic"
 	"testing"
 	"testing/synctest"
 	"time"
 
+	"github.com/DataDog/datadog-traceroute/cmd"
 	"github.com/DataDog/datadog-traceroute/packets"
 	"github.com/DataDog/datadog-traceroute/result"
 	"github.com/DataDog/datadog-traceroute/sack"
@@ -110,6 +114,7 @@ type parCase struct {
 	minTTL, maxTTL int
 	port           int
 	v6             bool
+	viaCLI         bool // the same request through the command line (cobra flags), MinTTL is always 1 there
 }
 
 func protoCode(s string) int {
@@ -160,7 +165,18 @@ func runParCase(t *testing.T, c parCase) (sx, sx) {
 				}
 			}()
 			var err error
-			res, err = tr.RunTraceroute(context.Background(), p)
+			if c.viaCLI {
+				args := []string{host, "--proto", c.proto, "--max-ttl", strconv.Itoa(c.maxTTL), "--port", strconv.Itoa(c.port), "--tcp-method", c.method,
+					"--timeout", "30", "--traceroute-queries", "1", "--e2e-queries", "0", fmt.Sprintf("--ipv6=%v", c.v6),
+					"--reverse-dns=false", "--source-public-ip=false", "--skip-private-hops=false", "--verbose=false", "--windows-driver=false"}
+				var doc map[string]any
+				doc, err = runCLI(args)
+				if err == nil {
+					res = cliResults(doc)
+				}
+			} else {
+				res, err = tr.RunTraceroute(context.Background(), p)
+			}
 			if err != nil {
 				status = 1
 			}
@@ -198,6 +214,60 @@ func runParCase(t *testing.T, c parCase) (sx, sx) {
 		out = L(sxInt(int64(status)), ttls, keys(protos), keys(dports), sxBool(dstOK), sxInt(int64(nh)), sxInt(int64(rport)))
 	})
 	return L(sxInt(8), sxInt(int64(protoCode(c.proto))), sxInt(int64(methodCode(c.method))), sxInt(int64(c.minTTL)), sxInt(int64(c.maxTTL)), sxInt(int64(c.port)), sxBool(c.v6)), out
+}
+
+// runCLI drives the real cobra command; its JSON output on stdout is captured through a pipe.
+var cliMu sync.Mutex
+
+func runCLI(args []string) (map[string]any, error) {
+	cliMu.Lock()
+	defer cliMu.Unlock()
+	// a regular file, not a pipe: a goroutine parked on pipe I/O would keep the synctest bubble from ever being
+	// durably blocked, and the virtual clock from advancing
+	tmp, err := os.CreateTemp("", "verif-cli-*.json")
+	must(err)
+	defer os.Remove(tmp.Name())
+	old := os.Stdout
+	os.Stdout = tmp
+	runErr := cmd.VerifExecute(args)
+	os.Stdout = old
+	tmp.Close()
+	if runErr != nil {
+		return nil, runErr
+	}
+	b, err := os.ReadFile(tmp.Name())
+	must(err)
+	var doc map[string]any
+	if err := json.Unmarshal(b, &doc); err != nil {
+		return nil, fmt.Errorf("CLI printed no JSON document: %w", err)
+	}
+	return doc, nil
+}
+
+// cliResults rebuilds what the lab looks at (number of hops of the single run, destination port) from the CLI's JSON
+func cliResults(doc map[string]any) *result.Results {
+	r := &result.Results{}
+	if d, ok := doc["destination"].(map[string]any); ok {
+		if p, ok := d["port"].(float64); ok {
+			r.Destination.Port = int(p)
+		}
+	}
+	if tr, ok := doc["traceroute"].(map[string]any); ok {
+		if runs, ok := tr["runs"].([]any); ok {
+			for _, ru := range runs {
+				run := result.TracerouteRun{}
+				if rm, ok := ru.(map[string]any); ok {
+					if hs, ok := rm["hops"].([]any); ok {
+						for range hs {
+							run.Hops = append(run.Hops, &result.TracerouteHop{})
+						}
+					}
+				}
+				r.Traceroute.Runs = append(r.Traceroute.Runs, run)
+			}
+		}
+	}
+	return r
 }
 
 // ---- kind 9: the HTTP handler's query parsing ----------------------------------------------
@@ -550,6 +620,17 @@ func labPar(e labEnv) {
 		in, out := runParCase(e.t, c)
 		w.put(in, out)
 		tags["run:"+c.proto]++
+		// every fourth request also through the command line (no --min-ttl flag there: first TTL 1)
+		if i%4 == 1 {
+			c2 := c
+			c2.viaCLI, c2.minTTL = true, 1
+			if i%8 == 1 {
+				c2.maxTTL = pick(r, []int{-30, -1, 0, 1, 2, 30, 255, 256, 300})
+			}
+			in, out := runParCase(e.t, c2)
+			w.put(in, out)
+			tags["cli:"+c2.proto]++
+		}
 	}
 	// kind 9
 	strs := []string{"0", "1", "30", "255", "256", "300", "-1", "65535", "65536", "abc", "", "1e3", "0x10", " 7"}
